@@ -324,4 +324,78 @@ theorem C04_pull_is_one_transaction :
   · intro x hx; simp [Extracted.pullTxShape] at hx; exact hx
   · simp [Extracted.pullTxShape]
 
+/-! ### a waiting pull and the retry deadline
+
+A pull that found nothing sleeps until a notification or until the time `nextAttempt` computes: the
+attempt time of the first row when the outstanding rows are sorted by attempt time (or that row's end of
+retention, if earlier).  Sorted by anything else, the timer may point past a row that is due sooner. -/
+
+/-- the first row of `ORDER BY attempt_at ASC`: a row none of the others is due before -/
+def firstDue : List Delivery → Option Delivery
+  | [] => none
+  | d :: r =>
+    match firstDue r with
+    | none => some d
+    | some e => if d.attemptAt ≤ e.attemptAt then some d else some e
+
+theorem firstDue_cons_some (x : Delivery) (r : List Delivery) : ∃ f, firstDue (x :: r) = some f := by
+  simp only [firstDue]
+  cases firstDue r with
+  | none => exact ⟨x, rfl⟩
+  | some e =>
+    by_cases h : x.attemptAt ≤ e.attemptAt
+    · exact ⟨x, by simp [h]⟩
+    · exact ⟨e, by simp [h]⟩
+
+theorem firstDue_le : ∀ (l : List Delivery) (f : Delivery), firstDue l = some f → ∀ d ∈ l, f.attemptAt ≤ d.attemptAt
+  | [], _, h, _, _ => by cases h
+  | x :: r, f, h, d, hd => by
+    simp only [firstDue] at h
+    cases hr : firstDue r with
+    | none =>
+      simp only [hr] at h
+      injection h with h; subst h
+      cases r with
+      | nil => simp only [List.mem_cons, List.not_mem_nil, or_false] at hd; subst hd; exact Int.le_refl _
+      | cons y r' =>
+        obtain ⟨g, hg⟩ := firstDue_cons_some y r'
+        rw [hg] at hr; cases hr
+    | some e =>
+      simp only [hr] at h
+      have ih := firstDue_le r e hr
+      simp only [List.mem_cons] at hd
+      by_cases hle : x.attemptAt ≤ e.attemptAt
+      · simp only [hle, if_true] at h
+        injection h with h; subst h
+        rcases hd with rfl | hd
+        · exact Int.le_refl _
+        · exact Int.le_trans hle (ih d hd)
+      · simp only [hle, if_false] at h
+        injection h with h; subst h
+        rcases hd with rfl | hd
+        · unfold Time at *; omega
+        · exact ih d hd
+
+/-- the wake-up time of a waiting pull -/
+def wakeTime (l : List Delivery) : Option Time :=
+  (firstDue l).map fun f => if f.expiresAt < f.attemptAt then f.expiresAt else f.attemptAt
+
+/-- **C04 (a waiting pull is woken at the retry deadline)**: the timer of a waiting pull does not point
+    past the attempt time of any outstanding row — so once a retry deadline has passed the waiter has
+    been woken and its query hands the message out; and the source sorts by attempt time (regenerated
+    fact). -/
+theorem C04_waiter_wakes_by_deadline (l : List Delivery) (t : Time) (h : wakeTime l = some t) :
+    (∀ d ∈ l, t ≤ d.attemptAt) ∧ Extracted.nextAttemptOrders.head? = some "Asc:AttemptAt" := by
+  refine ⟨?_, by simp [Extracted.nextAttemptOrders]⟩
+  unfold wakeTime at h
+  cases hf : firstDue l with
+  | none => rw [hf] at h; cases h
+  | some f =>
+    rw [hf] at h
+    simp only [Option.map_some, Option.some.injEq] at h
+    intro d hd
+    have := firstDue_le l f hf d hd
+    subst h
+    split <;> (unfold Time at *; omega)
+
 end Mmmbbb
